@@ -395,7 +395,18 @@ func cmdWorker(args []string) int {
 		if os.Getenv("LZSIM_TRACE") != "" {
 			fmt.Fprintf(os.Stderr, "run %d\n", run)
 		}
-		if process(run, "", t) {
+		t0 := time.Now()
+		stop := process(run, "", t)
+		if v := os.Getenv("LZSIM_SLOW"); v != "" { // diagnostics: list runs slower than v seconds
+			if lim, err := strconv.ParseFloat(v, 64); err == nil && time.Since(t0).Seconds() > lim {
+				spec := ""
+				if t.P != nil {
+					spec = t.P.String()
+				}
+				fmt.Fprintf(os.Stderr, "SLOW run %d %.1fs world=%s note=%q %s ops=%d\n", run, time.Since(t0).Seconds(), t.World, t.Note, spec, len(t.Ops))
+			}
+		}
+		if stop {
 			break
 		}
 	}
